@@ -1,5 +1,6 @@
 """C12 — row- and field-level transforms touch only what they are asked to."""
 from collections import OrderedDict
+import collections
 from .. import lean, proto, gen, util
 
 REQUIRED = ['Petl.C12.' + n for n in (
@@ -227,7 +228,11 @@ def run(ctx):
     # ---- several converters in one call (dict and positional list), every converter form: each field gets its own converter
     FORMS = [('upper', lambda v: v.upper()), ('lower', lambda v: v.lower()), ('strip', lambda v: v.strip()),
              (('replace', 'a', 'Z'), lambda v: v.replace('a', 'Z')), (['ljust', 4, '.'], lambda v: v.ljust(4, '.')),
-             ({'a': 'AA', ' b ': 'BB'}, lambda v: {'a': 'AA', ' b ': 'BB'}.get(v, v)), (len, len), (None, lambda v: v)]
+             ({'a': 'AA', ' b ': 'BB'}, lambda v: {'a': 'AA', ' b ': 'BB'}.get(v, v)), (len, len), (None, lambda v: v),
+             # mappings that answer unknown keys themselves: a cell that is not a key is still carried over unchanged
+             (collections.defaultdict(lambda: 'DEFAULT', {'a': 'AA'}), lambda v: {'a': 'AA'}.get(v, v)),
+             (collections.Counter({'aa': 2}), lambda v: {'aa': 2}.get(v, v)),
+             (collections.OrderedDict([('Ab', 'x')]), lambda v: {'Ab': 'x'}.get(v, v))]
     STR = ['a', 'Ab', ' b ', 'aa', 'Ba ']
     for ci in range(200 if ctx.thorough() else 40):
         w = rng.choice([2, 3, 3, 4])
